@@ -73,9 +73,10 @@ def read_tree(root):
     return out
 
 
-def run_process(argv, cwd, home, hashseed=0, perm="sorted", repeat=1, timeout=120):
+def run_process(argv, cwd, home, hashseed=0, perm="sorted", repeat=1, timeout=120, extra_env=None):
     env = {"PATH": os.environ.get("PATH", ""), "HOME": home, "XDG_CONFIG_HOME": os.path.join(home, ".config"),
            "PYTHONHASHSEED": str(hashseed), "VERIF_CMINX_SRC": lib.CMINX_SRC, "VERIF_PERM": perm, "VERIF_REPEAT": str(repeat)}
+    env.update(extra_env or {})
     p = subprocess.run([PY, DRIVER] + argv, cwd=cwd, env=env, stdout=subprocess.PIPE, stderr=subprocess.PIPE, timeout=timeout)
     return p.returncode, p.stdout.decode("utf8", "replace"), p.stderr.decode("utf8", "replace")
 
@@ -370,38 +371,95 @@ def genrst_case(beh, sandbox, route="cmake"):
     with open(script, "w") as fh:
         fh.write('set(CMINX_EXECUTABLE "%s")\ninclude("%s")\ncminx_gen_rst("%s" "%s" "-s" "%s")\n'
                  % (shim, os.path.join(lib.REPO, "cmake", "cminx.cmake"), tree, out_cmake, sfile))
+    # "shape": treeA/solo holds exactly one *.cmake file, which goes away and comes back (the directory stays)
+    only = os.path.join(tree, "solo", "only.cmake")
+    only_text = "#[[[\n# the only module of its directory\n#]]\nfunction(only_one)\nendfunction()\n"
+    os.makedirs(os.path.dirname(only))
+    with open(only, "w") as fh:
+        fh.write(only_text)
+    ops = []            # route "inproc": the whole history is executed by ONE driver process at the end
+    cur_out = out_cmake
+    snap = os.path.join(sandbox, "snapshot_of_first_output")
+
+    def do(op):
+        if route == "inproc":
+            ops.append(op)
+        elif op[0] == "append":
+            with open(op[1], "a") as fh:
+                fh.write(op[2])
+            if op[3] is not None:
+                os.utime(op[1], (op[3], op[3]))
+        elif op[0] == "unlink":
+            if os.path.exists(op[1]):
+                os.unlink(op[1])
+        elif op[0] == "toggle":
+            if os.path.exists(op[1]):
+                os.unlink(op[1])
+            else:
+                with open(op[1], "w") as fh:
+                    fh.write(op[2])
+        elif op[0] == "snapshot":
+            if os.path.isdir(op[1]):
+                shutil.copytree(op[1], op[2], symlinks=True)
     for k, act in enumerate(beh["hist"]):
         if act == "edit-lower":
-            with open(os.path.join(tree, "x.cmake"), "a") as fh:
-                fh.write("#[[[\n# added %d\n#]]\nfunction(added_%d)\nendfunction()\n" % (k, k))
+            do(["append", os.path.join(tree, "x.cmake"), "#[[[\n# added %d\n#]]\nfunction(added_%d)\nendfunction()\n" % (k, k), None])
         elif act == "edit-upper":
-            with open(os.path.join(tree, "sub", "Z.CMAKE"), "a") as fh:
-                fh.write("#[[[\n# added %d\n#]]\nfunction(added_up_%d)\nendfunction()\n" % (k, k))
+            do(["append", os.path.join(tree, "sub", "Z.CMAKE"), "#[[[\n# added %d\n#]]\nfunction(added_up_%d)\nendfunction()\n" % (k, k), None])
         elif act == "edit-settings":
             nset += 1
-            write_settings(nset)
+            if route == "inproc":
+                ops.append(["write", sfile, "rst:\n  module_path_separator: '%s'\nlogging:\n  version: 1\n" % seps[nset % 3]])
+            else:
+                write_settings(nset)
         elif act == "edit-backdated":
-            pth = os.path.join(tree, "sub", "y.cmake")
-            with open(pth, "a") as fh:
-                fh.write("#[[[\n# back-dated revision %d\n#]]\nfunction(backdated_%d)\nendfunction()\n" % (k, k))
-            os.utime(pth, (946684800 + k, 946684800 + k))         # 1 January 2000: older than any page
+            # 1 January 2000: older than any page
+            do(["append", os.path.join(tree, "sub", "y.cmake"),
+                "#[[[\n# back-dated revision %d\n#]]\nfunction(backdated_%d)\nendfunction()\n" % (k, k), 946684800 + k])
+        elif act == "edit-shape":
+            do(["toggle", only, only_text])
         elif act == "delete-page":
-            pg = os.path.join(out_cmake, "x.rst")
-            if os.path.exists(pg):
-                os.unlink(pg)
+            do(["unlink", os.path.join(cur_out, "x.rst")])
+        elif act == "switch-output":
+            do(["snapshot", cur_out, snap])
+            cur_out = os.path.join(sandbox, "out_second")
+            with open(script, "w") as fh:
+                fh.write('set(CMINX_EXECUTABLE "%s")\ninclude("%s")\ncminx_gen_rst("%s" "%s" "-s" "%s")\n'
+                         % (shim, os.path.join(lib.REPO, "cmake", "cminx.cmake"), tree, cur_out, sfile))
+        elif act == "call" and route == "inproc":
+            ops.append(["main", [tree, "-r", "-s", sfile, "-o", cur_out]])
         elif act == "call" and route == "cli":
-            rc, so, se = run_process([tree, "-r", "-s", sfile, "-o", out_cmake], sandbox, home)
+            rc, so, se = run_process([tree, "-r", "-s", sfile, "-o", cur_out], sandbox, home)
             if rc != 0:
                 return "exit status 0", se[-300:], "the command line failed on valid input"
         elif act == "call":
             p = subprocess.run(["cmake", "-P", script], cwd=sandbox, stdout=subprocess.PIPE, stderr=subprocess.PIPE, timeout=300)
             if p.returncode != 0:
                 return "cmake -P succeeds", p.stderr.decode()[-300:], "cminx_gen_rst failed on valid input"
+        else:
+            raise lib.MachineryError("GenRst history with an action the harness does not know: %r" % (act,))
+    if route == "inproc":
+        hfile = os.path.join(sandbox, "history.json")
+        with open(hfile, "w") as fh:
+            json.dump(ops, fh)
+        rc, so, se = run_process([], sandbox, home, extra_env={"VERIF_HISTORY": hfile})
+        if rc != 0:
+            return "exit status 0", se[-300:], "a sequence of command lines inside one process failed on valid input"
+    if cur_out != out_cmake and os.path.isdir(snap):
+        before, after = read_tree(snap), (read_tree(out_cmake) if os.path.isdir(out_cmake) else {})
+        if before != after:
+            diff = sorted(k for k in set(before) | set(after) if before.get(k) != after.get(k))
+            return {"first output directory": "as it was when the caller switched to another one"}, {"differing": diff[:8]}, \
+                "a call aimed at another output directory changed the first one"
+    out_cmake = cur_out
     rc, so, se = run_process([tree, "-r", "-s", sfile, "-o", out_cli], sandbox, home)
     if rc != 0:
         raise lib.MachineryError("reference command line run failed: " + se[-300:])
     t1 = read_tree(out_cmake) if os.path.isdir(out_cmake) else {}
     t2 = read_tree(out_cli)
+    if "edit-shape" in beh["hist"]:
+        # CMinx never deletes pages: those of a source that has gone away since an earlier call stay where they are
+        t1 = {k: v for k, v in t1.items() if k in t2 or not k.startswith("solo" + os.sep)}
     if t1 != t2:
         diff = sorted(k for k in set(t1) | set(t2) if t1.get(k) != t2.get(k))
         return {"files": sorted(t2)}, {"files": sorted(t1), "differing": diff[:8]}, \
